@@ -5,7 +5,7 @@ mkdir -p /verif/.cache
 cd /verif/coq
 python3 /verif/tools/gen_consts.py /verif/coq/Consts.v /verif/.cache/consts.json || echo "gen_consts failed"
 [ -f Makefile ] || coq_makefile -f _CoqProject -o Makefile >/dev/null
-timeout 2400 make -k -j16 2>&1 | grep -v "^COQDEP\|^COQC\|Nothing to be done\|^make" || true
+timeout 5400 make -k -j16 2>&1 | grep -v "^COQDEP\|^COQC\|Nothing to be done\|^make" || true
 cd /verif/model
 if [ ! -f mrl-model ] || [ model.ml -ot /verif/coq/Driver.vo ] || [ mrl-model -ot mrl_model.ml ]; then
   timeout 600 coqc -Q /verif/coq MRL /verif/coq/Extract.v
